@@ -628,7 +628,7 @@ let () =
              | "EVAL" -> Monitor.on_eval (next_int mc) impl
              | "TICK" -> Monitor.on_tick impl
              | "SYN" -> Monitor.on_syn (next_int mc) impl
-             | "CATCHUP" -> Monitor.on_catchup (next_int mc) impl
+             | "CATCHUP" -> let i = next_int mc in let m = next_id mc in Monitor.on_catchup ~member:m i impl
              | "ROUND" -> Monitor.on_round (next_int mc)
              | "ROUNDSEND" -> Monitor.on_rounds_end (next_int mc)
              | "HS" -> let a = next_int mc in let b = next_int mc in Monitor.on_hs_begin a b
